@@ -38,7 +38,7 @@ def plan(tier):
 
 def floors(tier):
     return {"nontrivial": 30, "held:additive": 30, "counter:jtj_checks": 80, "counter:hessian_checks": 80, "counter:hessian_exact": 30,
-            "counter:psd_checks": 80, "counter:fd_crosschecks": 60, "class:weights": 15, "class:x0-ndarray-shared": 20, "counter:sibling_calls": 40, "class:weights-zero-mask": 5, "class:target_param": 10, "class:obs-permuted": 10}
+            "counter:psd_checks": 80, "counter:fd_crosschecks": 60, "class:weights": 15, "class:x0-ndarray-shared": 20, "counter:sibling_calls": 40, "counter:prior_calls": 100, "counter:prior_call_fisher_information": 10, "class:weights-zero-mask": 5, "class:target_param": 10, "class:obs-permuted": 10}
 
 
 def run_case(rng, idx, tier, lane, ctx):
@@ -104,6 +104,7 @@ def run_case(rng, idx, tier, lane, ctx):
         obj = LC.make_loss(c)
         if c.x0_as_array:
             counters["sibling_calls"] = LC.disturb_with_sibling(rng, c)
+        sample["calls_made_before_jtj"] = LC.prior_calls(rng, c, obj, counters)
         with contextlib.redirect_stdout(io.StringIO()), np.errstate(all="ignore"):
             JTJ = np.asarray(obj.jtj(free), dtype=float)
         counters["jtj_checks"] += 1
@@ -123,6 +124,7 @@ def run_case(rng, idx, tier, lane, ctx):
     c.weight_arg, c.weights = None, None
     try:
         obj = LC.make_loss(c)
+        sample["calls_made_before_hessian"] = LC.prior_calls(rng, c, obj, counters)
         r = c.y - X[:, c.obs_idx]                               # (n, p)
         Sob = S[:, c.obs_idx, :][:, :, pidx]
         base = 2 * np.einsum("ija,ijb->ab", Sob, Sob)
